@@ -72,6 +72,7 @@ func verifCheckParse(src string, spans bool) {
 	var err error
 	kind, _ := verifCatch(func() {
 		p := newParser("", src, 1, nil)
+		p.mode = Mode(verifParam("mode", 0)) // 0, IgnoreRegExpErrors (1), StoreComments (2) or both
 		prog, err = p.parse()
 	})
 	verifCover("parsed")
@@ -128,7 +129,7 @@ func VerifH_C04_parse_bytes() {
 // verifAlphabet: the bytes allowed in template holes (a table lookup, so the
 // restriction is one term, not a fork per byte).
 var verifAlphabet = func() (t [256]bool) {
-	for _, c := range []byte(" \n;:,.(){}[]a1'\"/=+-!?<&|") {
+	for _, c := range []byte(" \n;:,.(){}[]a1'\"/=+-!?<&|*") {
 		t[c] = true
 	}
 	return
